@@ -241,6 +241,12 @@ C11_DECODERS = [
     ('<' + _C + 'k256::curve::K256Affine as group::GroupEncoding>::from_bytes', ['<k256::arithmetic::affine::AffinePoint as group::GroupEncoding>::from_bytes'], 'k256 crate checked decoder'),
     (_C + 'k256::curve::K256Affine::from_xy', ['FromEncodedPoint>::from_encoded_point'], 'k256 crate on-curve check'),
 ]
+# functions of g1.rs / g2.rs that delegate to blst point routines and have no namesake in the sibling group (C11.R3)
+C11_ONE_SIDED = {
+    'midnight_curves::bls12_381::g1::G1Projective::is_on_curve': 'G1 exposes is_on_curve inherently; G2 through CurveExt (next row)',
+    '<midnight_curves::bls12_381::g2::G2Projective as midnight_curves::curve::CurveExt>::is_on_curve': 'G2 exposes is_on_curve through CurveExt; G1 inherently (previous row)',
+}
+
 C11_TWINS = [
     (_G1A + '::from_compressed', _G1A + '::from_compressed_unchecked', ['::is_on_curve', '::is_torsion_free']),
     (_G1A + '::from_uncompressed', _G1A + '::from_uncompressed_unchecked', ['::is_on_curve']),
